@@ -23,6 +23,8 @@ BPT = ZA + "::states::BlindedPayToken"
 
 def run(rep):
     prog = rep.prog
+    from .c19 import independent_generators
+    independent_generators(rep)
     rep.rule("token-iff-open", "complete_payment returns Ok iff R_open(stored revocation-lock commitment; merchant's commitment parameters, supplied blinding factor, (pair.lock)) - all four inputs used")
     rep.rule("refusal-inert", "on failure the pending payment is returned unchanged (Err(self))")
     rep.rule("token-on-stored-state", "the issued pay token is a blind signature on the verified state stored by allow_payment")
